@@ -407,6 +407,7 @@ func leafNames(path string, sh *Shape) []string {
 }
 
 func (w *World) directMods(fn *ssa.Function, blocks map[*ssa.BasicBlock]bool) *modInfo {
+	inLoop := blocks != nil // the function's own loop: writes to its local objects count
 	mi := &modInfo{names: map[string]bool{}, dynParams: map[int]bool{}}
 	for _, b := range fn.Blocks {
 		if blocks != nil && !blocks[b] {
@@ -415,7 +416,7 @@ func (w *World) directMods(fn *ssa.Function, blocks map[*ssa.BasicBlock]bool) *m
 		for _, ins := range b.Instrs {
 			switch in := ins.(type) {
 			case *ssa.Store:
-				if rootIsLocalAlloc(in.Addr) {
+				if !inLoop && rootIsLocalAlloc(in.Addr) {
 					continue // initialisation of an object allocated by this activation: not a write to memory the caller knows
 				}
 				p, sh, ok := addrPath(in.Addr)
@@ -427,7 +428,7 @@ func (w *World) directMods(fn *ssa.Function, blocks map[*ssa.BasicBlock]bool) *m
 					mi.names[n] = true
 				}
 			case *ssa.MapUpdate:
-				if _, local := in.Map.(*ssa.MakeMap); local {
+				if _, local := in.Map.(*ssa.MakeMap); local && !inLoop {
 					continue
 				}
 				mt := in.Map.Type().Underlying().(*types.Map)
@@ -446,7 +447,7 @@ func (w *World) directMods(fn *ssa.Function, blocks map[*ssa.BasicBlock]bool) *m
 				if b, ok := c.Value.(*ssa.Builtin); ok {
 					switch b.Name() {
 					case "append", "copy":
-						if sliceIsLocal(c.Args[0], map[ssa.Value]bool{}) {
+						if !inLoop && sliceIsLocal(c.Args[0], map[ssa.Value]bool{}) {
 							continue // grows / fills a slice whose backing array was allocated by this activation
 						}
 						if st, ok := c.Args[0].Type().Underlying().(*types.Slice); ok {
@@ -681,7 +682,7 @@ func (w *World) calleeEffect(caller *ssa.Function, c *ssa.CallCommon, out *modIn
 		if _, ok := libInvoke[typeKey(c.Value.Type())+"."+c.Method.Name()]; ok {
 			out.names["Lib#rscur"] = true
 		}
-		if o := paramOrigin(caller, c.Value, 0); o >= 0 {
+		if o := paramOrigin(caller, c.Value, 0); o >= 0 && !w.trustedIface(c.Value.Type()) {
 			// the implementation is chosen by our caller: accounted for at the call site
 			out.dynParams[o] = true
 			return
@@ -989,7 +990,7 @@ func rootIsLocalAlloc(v ssa.Value) bool {
 			if _, isPtr := x.X.Type().Underlying().(*types.Pointer); isPtr {
 				v = x.X
 			} else {
-				return false
+				return sliceIsLocal(x.X, map[ssa.Value]bool{})
 			}
 		default:
 			return false
